@@ -10,8 +10,8 @@ call did NOT do.  This file proves what that buys: two runs of a quiet call, fro
   * by a renaming of the frame indices (`Grol.R.Sh`: the frames allocated since the runs diverged are shifted,
     as in the C10 simulation), and
   * on a set `D` of bindings of the frames that already existed — DIRTY bindings: bindings the purity test does
-    not trust (in run T: bound, to a value that is neither a function nor a reference, under a name that is not
-    all-caps) and that no value of run T refers to (`clean`: no reference to a dirty binding inside any
+    not trust (in run T: bound, under a name that is not all-caps, to a value that is not a reference and not a
+    function of a depth-0 frame) and that no value of run T refers to (`clean`: no reference to a dirty binding inside any
     argument or stored value, at any depth of arrays and maps) —
 
 with the cache off, give the same result up to the renaming, the same output, and the call is quiet in the
@@ -140,7 +140,8 @@ structure C04.AgreeExcept (D : Nat → String → Prop) (s t : St) : Prop where
   function nor a reference, under a name that is not all-caps (since repo fix 103fa2c function values of NON-root frames
   are untrusted as well; they are not admitted into `D` here, see `FrQ.dirty`) -/
   dirty : ∀ i n, D i n → isConstant n = false ∧
-    ∃ ft v, t.frames[i]? = some ft ∧ lookupStore ft.store n = some v ∧ notRef v = true ∧ isFuncObj v = false
+    ∃ ft v, t.frames[i]? = some ft ∧ lookupStore ft.store n = some v ∧ notRef v = true ∧
+      (isFuncObj v = false ∨ ft.depth ≠ 0)
   /-- no value bound in `t` (outside `D`) contains a reference to a binding of `D` -/
   untracked : ∀ i ft n v, t.frames[i]? = some ft → ¬ D i n → lookupStore ft.store n = some v → cleanD D v
   /-- parents and references point to smaller frame indices (true of every reachable state) -/
@@ -230,7 +231,7 @@ theorem det_agree : C04.AgreeExcept detD (detState 7) (detState 5) := by
     have hx' : ("x" == n) = false := by simpa using fun hh : "x" = n => hx hh.symm
     simp only [lookupStore, hx', Bool.false_eq_true, if_false]
   · rintro i n ⟨rfl, rfl⟩
-    exact ⟨by decide, _, .int 5, rfl, rfl, rfl, rfl⟩
+    exact ⟨by decide, _, .int 5, rfl, rfl, rfl, Or.inl rfl⟩
   · intro i ft n v h hn hl
     obtain ⟨rfl, rfl⟩ := hframe i ft h
     have hx : ¬ n = "x" := fun hh => hn ⟨rfl, hh⟩
@@ -350,7 +351,11 @@ that evaluating the call there with the cache off returns.  Missing: the invaria
 quiet call and the trusted bindings it read are unchanged since" through `functionChanged` and `del`, and a
 non-lockstep simulation (general renaming of frame indices) relating the stored run to the run evaluated now;
 `C04.quiet_call_deterministic` is the step from "trusted bindings unchanged" to "same result".  The statement is
-false for the recorded classes (closure results, float keys: known_findings.json) and has to exclude them. -/
+false for the recorded classes (closure results, float keys: known_findings.json) and has to exclude them; it is also
+FALSE of the code as it is for a recursive function that shadows a root function locally (open finding
+`recursive-call-hit-ignores-callers-local-function`: a same-function call is parented to its caller's frame).  The
+invariant, the proved parts ((a) initially, (c0) frame-free steps, (d) hit = evaluation for a valid cache) and the missing
+statements are in Props/C04Hit.lean. -/
 def C04.HitIsEvaluation : Prop :=
   ∀ (cfg : Cfg) (st : St), C04.Reached cfg st → ∀ (f : FuncVal) (args : List Obj) (v : Obj) (out : Grol.Wire.Bytes),
     outcome (cacheGet f.key args) st = .ok (some (v, out)) →
